@@ -16,8 +16,8 @@ func init() {
 		Explanation: "Decides structural clauses of delete correctness: D1 order inside a delete: tombstones committed on every overlapping file (the error of the parallel apply is checked) before the cache range is removed, before the WAL delete entry is written; the index is touched only after the file walk and the cache walk that cross out surviving series; " +
 			"D2 level compactions, series-file compactions and TSI compactions are disabled before the first deleteSeriesRange on every path and re-enabled by a deferred call; enableLevelCompactions restarts compactions only when no delete still holds them; " +
 			"D3 WAL replay handles every WALEntry implementation (deletes are replayed); D4 the inclusive range-overlap predicates equal their specification on every ordering; D5 lock pairing in the delete's closures; " +
-			"D6 FileStore.Apply reports an error if any file's function failed (a nil result never overwrites an error); D7 the reconciliation pass examines every file (no time-range filter) so a series that still has points in a non-overlapping file stays listed. " +
-			"NOT decided: resurrection through a snapshot already in flight (a schedule property), exactness of Values.Exclude index arithmetic, tombstone file format.",
+			"D6 FileStore.Apply reports an error if any file's function failed (a nil result never overwrites an error); D7 the reconciliation pass examines every file (no time-range filter) so a series that still has points in a non-overlapping file stays listed; D8 a delete covers every container of not-yet-filed points: Cache.DeleteRange filters the in-flight snapshot too, or the delete path excludes cache snapshots while it runs (neither today: recorded known finding with a demonstration). " +
+			"NOT decided: exactness of Values.Exclude index arithmetic, tombstone file format.",
 		RuleText:    "obligation = (rule, function, site); outcome/marker path exploration; registry agreement of the WAL entry family; exhaustive predicate evaluation; lock balance exploration",
 		Assumptions: commonAssumptions,
 	}, runC10)
@@ -540,5 +540,29 @@ func runC10(c *core.Ctx) {
 			}
 		}
 		c.Check("reconcile-every-file", recon.Name+"/seeks-from-min-key", recon.PosStr(), seek >= 1, "the reconciliation walk must start at the smallest deleted key of each file")
+	})
+
+	c.Clause("D8", func() {
+		// Acknowledged points that are not yet in an installed TSM file live in Cache.store and, while a cache
+		// snapshot is being written, in Cache.snapshot. A delete has to filter both containers or keep a
+		// snapshot from being in flight while it runs; otherwise the snapshot's file is installed afterwards
+		// with the deleted points and no tombstone.
+		dr := c.Fn(tsm1 + ".(*Cache).DeleteRange")
+		snapF := c.P.LookupField(tsm1, "Cache", "snapshot")
+		c.Need(snapF != nil, "field Cache.snapshot")
+		cl := c.P.Closure([]*core.FuncInfo{dr}, core.InPkgs(tsm1))
+		reads, writes := core.FieldAccesses(cl, snapF)
+		c.Counts["functions_analysed"] += len(cl)
+		filters := len(reads)+len(writes) > 0
+		excluded := false
+		for _, g := range []*core.FuncInfo{c.Fn(tsm1 + ".(*Engine).DeleteSeriesRangeWithPredicate"), c.Fn(dsr)} {
+			for _, h := range withLocalHelpers(c.P, g) {
+				if len(h.Graph().Find(evCall(calleeIn(h, tsm1+".(*Engine).disableSnapshotCompactions")))) > 0 {
+					excluded = true
+				}
+			}
+		}
+		c.Check("delete-covers-inflight-snapshot", dsr+"/Cache.snapshot", c.Fn(dsr).PosStr(), filters || excluded,
+			"Cache.DeleteRange filters only Cache.store and the delete path stops level compactions but not cache snapshots: a delete that completes while a snapshot is in flight (between Cache.Snapshot and FileStore.Replace in Engine.WriteSnapshot, which does not hold Engine.mu there) leaves the snapshot's points untouched; its TSM file is installed afterwards without a tombstone and the deleted points are readable again, also after a restart")
 	})
 }
